@@ -1287,6 +1287,10 @@ func TestVerifC30(t *testing.T) {
 		if earlyStop(r) {
 			return
 		}
+		if r.TimeUp() {
+			r.Cap("time_transactions", "not all pairs of operation lists were interleaved")
+			return
+		}
 		for _, l1 := range lists[1] {
 			for _, il := range interleavings(len(l0)+1, len(l1)+1) {
 				for _, start := range starts {
